@@ -4,7 +4,7 @@
   of every property module are audited by the runner on each run).  Helper lemmas live in the property files.
 -/
 import Melda.Props.C01 import Melda.Props.C01b import Melda.Props.C01c import Melda.Props.C01d
-import Melda.Props.C01e import Melda.Props.C01f import Melda.Props.C02 import Melda.Props.C03
+import Melda.Props.C01e import Melda.Props.C01f import Melda.Props.C02 import Melda.Props.C02b import Melda.Props.C03
 import Melda.Props.C03b import Melda.Props.C03c import Melda.Props.C04 import Melda.Props.C04b
 import Melda.Props.C04c import Melda.Props.C04d import Melda.Props.C05 import Melda.Props.C06
 import Melda.Props.C06b import Melda.Props.C06c import Melda.Props.C07 import Melda.Props.C08
@@ -37,6 +37,7 @@ section C02  -- blocks take effect only when causally complete
 #check @C02.refresh_synced
 #check @C02.refresh_seq_eq_reload
 #check @C02.applied_ancestors
+#check @C02b.markValid_depth
 end C02
 section C03  -- a successful commit is durable and reopens to the same state
 #check @C03b.commit_reopen
